@@ -1,13 +1,18 @@
 import ChiModel.PopLayout
 import ChiModel.Hier
+import ChiModel.Covariate
 /-!
 # ComposedPopulationModel: compute_log_likelihood, _compute_sensitivities,
-# _compute_reduced_sensitivities, n_hierarchical_parameters (sub-models without covariates)
+# _compute_reduced_sensitivities, n_hierarchical_parameters
 
-The loops are written with their running offsets (`current_dim`, `current_param`, `current_top`,
-`current_hdim`), exactly as in the code; the declarative reading ("each part on its own dimensions
-and parameters") is the specification they are proved equal to in `Props/C05.lean`.
-A composed model only takes the flat parameter vector (it slices it).
+Sub-models are elementary population models, bare (`nCov = 0`) or wrapped in a
+`CovariatePopulationModel` (`nCov > 0`, stored selection `sel`; `Covariate.lean` supplies the
+linear transform `covTh` and its transposed map `covSens`).
+
+The loops are written with their running offsets (`current_dim`, `current_param` /
+`current_top`, `current_cov`, `current_hdim`), exactly as in the code; the declarative reading
+("each part on its own dimensions, parameters and covariates") is the specification they are
+proved equal to in `Props/C05.lean`. A composed model only takes the flat parameter vector.
 -/
 namespace ChiModel
 variable {α : Type} [Add α] [Sub α] [Mul α] [Div α] [Neg α] [ScalarFns α]
@@ -23,34 +28,75 @@ def sliceObs (obs : Nat → Nat → α) (off : Nat) : Nat → Nat → α := fun 
 def sliceUp (up : Option (Nat → Nat → α)) (off : Nat) : Option (Nat → Nat → α) :=
   up.map (fun u => fun i d => u i (off + d))
 
+/-- `covariates[:, current_cov:end_cov]` -/
+def sliceCov (cov : Nat → Nat → α) (off : Nat) : Nat → Nat → α := fun i c => cov i (off + c)
+
+/-- the covariate model's bookkeeping of a wrapped sub-model -/
+def SubModel.cfg (s : SubModel) (nIds : Nat) : CovCfg := ⟨s.nDim, s.kind.perDim nIds, s.nCov, s.sel⟩
+
+/-- the population parameters a sub-model's kernel sees: its flat slice, or — behind a covariate
+    model — the per-individual tensor `ϑ_i = ϑ₀ + β χ_i` (`compute_population_parameters`) -/
+def pcSubTh (nIds : Nat) (s : SubModel) (params : Nat → α) (curParam : Nat) (cov : Nat → Nat → α)
+    (curCov : Nat) : Nat → Nat → Nat → α :=
+  if s.nCov = 0 then sliceTh params curParam s.nDim
+  else covTh (s.cfg nIds) (fun j => params (curParam + j)) (sliceCov cov curCov)
+
 /-- `compute_log_likelihood`: the loop -/
-def composedLLGo [HasErf α] (nIds : Nat) (params : Nat → α) (obs : Nat → Nat → α) :
-    List SubModel → (curDim curParam : Nat) → Score α → Score α
-  | [], _, _, acc => acc
-  | s :: ss, curDim, curParam, acc =>
-    composedLLGo nIds params obs ss (curDim + s.nDim) (curParam + s.kind.nParams nIds s.nDim)
-      (Score.add acc (popLL s.kind nIds s.nDim (sliceTh params curParam s.nDim) (sliceObs obs curDim)))
+def composedLLGo [HasErf α] (nIds : Nat) (params : Nat → α) (obs cov : Nat → Nat → α) :
+    List SubModel → (curDim curParam curCov : Nat) → Score α → Score α
+  | [], _, _, _, acc => acc
+  | s :: ss, curDim, curParam, curCov, acc =>
+    composedLLGo nIds params obs cov ss (curDim + s.nDim) (curParam + s.nTop nIds) (curCov + s.nCov)
+      (Score.add acc (popLL s.kind nIds s.nDim (pcSubTh nIds s params curParam cov curCov)
+        (sliceObs obs curDim)))
 
 def composedLL [HasErf α] (nIds : Nat) (subs : List SubModel) (params : Nat → α)
-    (obs : Nat → Nat → α) : Score α :=
-  composedLLGo nIds params obs subs 0 0 Score.zero
+    (obs cov : Nat → Nat → α) : Score α :=
+  composedLLGo nIds params obs cov subs 0 0 0 Score.zero
 
 /-- the specification of additivity: part `k` evaluated on its own block, offsets = sizes of the
     parts before it -/
 def pcDimOff (subs : List SubModel) (k : Nat) : Nat := ((subs.take k).map (·.nDim)).sum
 def paramOff (nIds : Nat) (subs : List SubModel) (k : Nat) : Nat :=
-  ((subs.take k).map (fun s => s.kind.nParams nIds s.nDim)).sum
+  ((subs.take k).map (fun s => s.nTop nIds)).sum
+def pcCovOff (subs : List SubModel) (k : Nat) : Nat := ((subs.take k).map (·.nCov)).sum
 
-def partLL [HasErf α] (nIds : Nat) (subs : List SubModel) (params : Nat → α) (obs : Nat → Nat → α)
+def partLL [HasErf α] (nIds : Nat) (subs : List SubModel) (params : Nat → α) (obs cov : Nat → Nat → α)
     (k : Nat) : Score α :=
   match subs[k]? with
   | none => Score.zero
-  | some s => popLL s.kind nIds s.nDim (sliceTh params (paramOff nIds subs k) s.nDim)
+  | some s => popLL s.kind nIds s.nDim (pcSubTh nIds s params (paramOff nIds subs k) cov (pcCovOff subs k))
       (sliceObs obs (pcDimOff subs k))
 
 def composedLLSpec [HasErf α] (nIds : Nat) (subs : List SubModel) (params : Nat → α)
-    (obs : Nat → Nat → α) : Score α :=
-  (List.range subs.length).foldl (fun acc k => Score.add acc (partLL nIds subs params obs k)) Score.zero
+    (obs cov : Nat → Nat → α) : Score α :=
+  (List.range subs.length).foldl (fun acc k => Score.add acc (partLL nIds subs params obs cov k))
+    Score.zero
+
+/-! ## what a sub-model returns to the composed model -/
+
+/-- `compute_sensitivities(...)` third value (flattened `dtheta`): a bare model's `_shape`, or the
+    covariate model's `hstack(dpop, dcov)` of the wrapped model's `(n_ids, n_per, n_dim)` form -/
+def subFlattened (nIds : Nat) (s : SubModel) (so : SensOut α) (cov : Nat → Nat → α) : List α :=
+  if s.nCov = 0 then shapeFlattened s.kind nIds s.nDim so
+  else covSens (s.cfg nIds) nIds so.dtheta cov
+
+/-- `compute_sensitivities(..., reduce=True)`. Behind a covariate model (since `3d6f67b`): kinds
+    with individual-level entries return `hstack(dpsi.flatten(), dtheta)`; pooled / heterogeneous
+    ones add `dpsi` onto row 0 / the individual's own row of `dvartheta` and push that through the
+    covariate model. -/
+def subReduce (nIds : Nat) (s : SubModel) (so : SensOut α) (cov : Nat → Nat → α) : List α :=
+  if s.nCov = 0 then shapeReduce s.kind nIds s.nDim so
+  else if s.kind.hierarchical then
+    flatPsi nIds s.nDim so.dpsi ++ covSens (s.cfg nIds) nIds so.dtheta cov
+  else
+    covSens (s.cfg nIds) nIds
+      (fun i p d => if p = (match s.kind with | .hetero => i | _ => 0)
+        then so.dtheta i p d + so.dpsi i d else so.dtheta i p d) cov
+
+/-- `n_hierarchical_parameters(n_ids)` of a sub-model = (bottom, top) -/
+def SubModel.nHierP (s : SubModel) (nIds : Nat) : Nat × Nat :=
+  (if s.kind.hierarchical then nIds * s.nDim else 0, s.nTop nIds)
 
 /-! ## sensitivities, separate form (`reduce=False`) -/
 
@@ -62,21 +108,22 @@ structure CompSens (α : Type) where
   /-- `dtheta`, sub-model blocks concatenated -/
   dtheta : List α
 
-def composedSensGo [HasErf α] (nIds : Nat) (params : Nat → α) (obs : Nat → Nat → α)
+def composedSensGo [HasErf α] (nIds : Nat) (params : Nat → α) (obs cov : Nat → Nat → α)
     (up : Option (Nat → Nat → α)) :
-    List SubModel → (curDim curParam : Nat) → CompSens α → CompSens α
-  | [], _, _, acc => acc
-  | s :: ss, curDim, curParam, acc =>
-    let so := popSens s.kind nIds s.nDim (sliceTh params curParam s.nDim) (sliceObs obs curDim)
-      (sliceUp up curDim)
-    composedSensGo nIds params obs up ss (curDim + s.nDim) (curParam + s.kind.nParams nIds s.nDim)
+    List SubModel → (curDim curParam curCov : Nat) → CompSens α → CompSens α
+  | [], _, _, _, acc => acc
+  | s :: ss, curDim, curParam, curCov, acc =>
+    let so := popSens s.kind nIds s.nDim (pcSubTh nIds s params curParam cov curCov)
+      (sliceObs obs curDim) (sliceUp up curDim)
+    composedSensGo nIds params obs cov up ss (curDim + s.nDim) (curParam + s.nTop nIds)
+      (curCov + s.nCov)
       ⟨Score.add acc.score so.score, acc.defined && so.defined,
        acc.cols ++ (List.range s.nDim).map (fun d => fun i => so.dpsi i d),
-       acc.dtheta ++ shapeFlattened s.kind nIds s.nDim so⟩
+       acc.dtheta ++ subFlattened nIds s so (sliceCov cov curCov)⟩
 
 def composedSens [HasErf α] (nIds : Nat) (subs : List SubModel) (params : Nat → α)
-    (obs : Nat → Nat → α) (up : Option (Nat → Nat → α)) : CompSens α :=
-  composedSensGo nIds params obs up subs 0 0 ⟨Score.zero, true, [], []⟩
+    (obs cov : Nat → Nat → α) (up : Option (Nat → Nat → α)) : CompSens α :=
+  composedSensGo nIds params obs cov up subs 0 0 0 ⟨Score.zero, true, [], []⟩
 
 /-! ## sensitivities, hierarchical form (`reduce=True`) -/
 
@@ -88,27 +135,27 @@ structure CompRed (α : Type) where
   /-- top-level block -/
   tops : List α
 
-def composedRedGo [HasErf α] (nIds : Nat) (params : Nat → α) (obs : Nat → Nat → α)
+def composedRedGo [HasErf α] (nIds : Nat) (params : Nat → α) (obs cov : Nat → Nat → α)
     (up : Option (Nat → Nat → α)) :
-    List SubModel → (curDim curTop : Nat) → CompRed α → CompRed α
-  | [], _, _, acc => acc
-  | s :: ss, curDim, curTop, acc =>
-    let so := popSens s.kind nIds s.nDim (sliceTh params curTop s.nDim) (sliceObs obs curDim)
-      (sliceUp up curDim)
-    let ds := shapeReduce s.kind nIds s.nDim so
-    let nb := (s.kind.nHierParams nIds s.nDim).1
-    let nt := (s.kind.nHierParams nIds s.nDim).2
+    List SubModel → (curDim curTop curCov : Nat) → CompRed α → CompRed α
+  | [], _, _, _, acc => acc
+  | s :: ss, curDim, curTop, curCov, acc =>
+    let so := popSens s.kind nIds s.nDim (pcSubTh nIds s params curTop cov curCov)
+      (sliceObs obs curDim) (sliceUp up curDim)
+    let ds := subReduce nIds s so (sliceCov cov curCov)
+    let nb := (s.nHierP nIds).1
+    let nt := (s.nHierP nIds).2
     -- `dpsi[:, current_hdim:end_hdim] = ds[:n_b].reshape(n_ids, n_dim)` only `if n_b > 0`
     let newCols := if nb > 0 then (List.range s.nDim).map (fun d => fun i => ds.getD (i * s.nDim + d) zero)
       else []
-    composedRedGo nIds params obs up ss (curDim + s.nDim) (curTop + nt)
+    composedRedGo nIds params obs cov up ss (curDim + s.nDim) (curTop + nt) (curCov + s.nCov)
       ⟨Score.add acc.score so.score, acc.defined && so.defined, acc.hcols ++ newCols,
        acc.tops ++ ds.drop nb⟩
 
 /-- `dscore`: bottom block flattened individual-major, then the top block -/
 def composedReduced [HasErf α] (nIds : Nat) (subs : List SubModel) (params : Nat → α)
-    (obs : Nat → Nat → α) (up : Option (Nat → Nat → α)) : Score α × Bool × List α :=
-  let r := composedRedGo nIds params obs up subs 0 0 ⟨Score.zero, true, [], []⟩
+    (obs cov : Nat → Nat → α) (up : Option (Nat → Nat → α)) : Score α × Bool × List α :=
+  let r := composedRedGo nIds params obs cov up subs 0 0 0 ⟨Score.zero, true, [], []⟩
   (r.score, r.defined, (List.range nIds).flatMap (fun i => r.hcols.map (fun c => c i)) ++ r.tops)
 
 /-- `n_hierarchical_parameters(n_ids)`: the loop -/
@@ -116,11 +163,13 @@ def composedNHier (nIds : Nat) : List SubModel → Nat × Nat
   | [] => (0, 0)
   | s :: ss =>
     let r := composedNHier nIds ss
-    ((s.kind.nHierParams nIds s.nDim).1 + r.1, (s.kind.nHierParams nIds s.nDim).2 + r.2)
+    ((s.nHierP nIds).1 + r.1, (s.nHierP nIds).2 + r.2)
 
 def composedNParams (nIds : Nat) (subs : List SubModel) : Nat :=
-  (subs.map (fun s => s.kind.nParams nIds s.nDim)).sum
+  (subs.map (fun s => s.nTop nIds)).sum
 
 def composedNDim (subs : List SubModel) : Nat := (subs.map (·.nDim)).sum
+
+def composedNCov (subs : List SubModel) : Nat := (subs.map (·.nCov)).sum
 
 end ChiModel
